@@ -20,7 +20,7 @@ SENTINEL_NS = 1_000_000_000 * 1_000_000_000 // 1000  # a fixed old mtime (2001-0
 SENTINEL_NS = 1_000_000_000_000_000_000
 
 
-def content(f: str, incs: list[str], eol: str) -> str:
+def content(f: str, incs: list[str], eol: str, root: str = '') -> str:
     lines = [f'; file {f}']
     d = os.path.dirname(REL[f])
     for it in sorted(incs):
@@ -30,6 +30,9 @@ def content(f: str, incs: list[str], eol: str) -> str:
             lines.append('include "**/*.bean"')
         elif it == 'nomatch':
             lines.append('include "nope-*.bean"')
+        elif it == 'absa':
+            # (the include string is a pattern: metacharacters in the directory's name are written escaped)
+            lines.append(f'include "{__import__("glob").escape(os.path.join(root, "a.bean"))}"')
         else:
             lines.append(f'include "{os.path.relpath(REL[it], d or ".")}"')
     lines.append(f'2000-01-01 open Assets:{f.upper()}')
@@ -64,7 +67,7 @@ def replay(b: dict) -> list[tuple[str, str]]:
         for f in files:
             p = os.path.join(root, REL[f])
             os.makedirs(os.path.dirname(p), exist_ok=True)
-            data = content(f, b['inc'][f], b['eol']).encode()
+            data = content(f, b['inc'][f], b['eol'], root).encode()
             with open(p, 'wb') as fh:
                 fh.write(data)
             os.utime(p, ns=(SENTINEL_NS, SENTINEL_NS))
@@ -254,13 +257,18 @@ def main(prop: str, tier: str) -> int:
         runs = [dict(Spellings='{"%s"}' % sp_all[seed % 5], Eols='{"%s"}' % eol_all[seed % 4], MaxOps='1',
                      Modes='{"recursive", "single"}', IncMenu=menu),
                 dict(Spellings='{"abs", "dot", "bare", "dotdot", "pathlib"}', Eols='{"lf", "crlf", "mixed", "nofinal"}',
-                     MaxOps='2', Modes='{"recursive", "single"}', IncMenu='{{}, {"b", "starstar"}, {"a", "c"}}')]
+                     MaxOps='2', Modes='{"recursive", "single"}', IncMenu='{{}, {"b", "starstar"}, {"a", "c"}}'),
+                # an include that names the root by its absolute path, under every spelling of the root itself
+                dict(Spellings='{"abs", "dot", "bare", "dotdot", "pathlib"}', Eols='{"lf"}', MaxOps='1', Modes='{"recursive"}',
+                     IncMenu='{{}, {"absa"}, {"b"}}')]
     else:
         files = '{"a", "b", "c", "d"}'
         menu = '{{}, {"b"}, {"d"}, {"a"}, {"b", "c"}, {"starstar"}, {"nomatch"}}'
         runs = [dict(Spellings='{"abs", "bare"}', Eols='{"crlf"}', MaxOps='1', Modes='{"recursive"}', IncMenu=menu),
                 dict(Spellings='{"abs", "bare", "dotdot"}', Eols='{"crlf", "nofinal"}',
-                     MaxOps='2', Modes='{"recursive", "single"}', IncMenu='{{}, {"b", "starstar"}, {"a", "c"}, {"d"}}')]
+                     MaxOps='2', Modes='{"recursive", "single"}', IncMenu='{{}, {"b", "starstar"}, {"a", "c"}, {"d"}}'),
+                dict(Spellings='{"abs", "dot", "bare", "dotdot", "pathlib"}', Eols='{"lf", "crlf"}', MaxOps='1', Modes='{"recursive"}',
+                     IncMenu='{{}, {"absa"}, {"b"}}')]
     states = transitions = n = 0
     samples = []
     info = []
@@ -283,13 +291,17 @@ def main(prop: str, tier: str) -> int:
                 for kind, msg, b in out:
                     if kind == 'machinery':
                         rep.machinery_error(msg)
+                    elif any('absa' in v for v in b['inc'].values()) and b['spelling'] in ('dot', 'bare', 'dotdot') \
+                            and b['mode'] == 'recursive':
+                        # one file reached under two spellings of its path (relative root, absolute include)
+                        rep.violation('C16/root-reached-under-two-spellings', {'what': msg, 'kind': kind, 'session': b})
                     else:
                         rep.violation(f'C16/{kind}/{b["mode"]}/{b["spelling"]}/{b["eol"]}', {'what': msg, 'session': b})
     rep.cov.update({'states': states, 'transitions': transitions, 'traces_validated_against_impl': n, 'runs': info,
                     'samples': samples[:2], 'exhaustive': True,
                     'rule': 'every include graph over the files (each file picks an include set from the menu) x root spelling x '
                             'line ends x every body of up to MaxOps operations x normal / raising exit'})
-    rep.assumptions += ['the same file reached under two different spellings and symlink aliases are out of scope',
+    rep.assumptions += ['symlink aliases of one file are out of scope (the root reached through an absolute include under a relative spelling is covered)',
                         'an edit is "append a directive" so that original bytes must stay a prefix of the written file']
     return rep.finish()
 
